@@ -118,7 +118,7 @@ def ensure_mir(kind='lib'):
         # keep at most 3 trees
         root = os.path.join(BUILD, 'mir')
         ds = sorted((os.path.getmtime(os.path.join(root, x)), x) for x in os.listdir(root))
-        for _, x in ds[:-3]:
+        for _, x in ds[:-8]:
             shutil.rmtree(os.path.join(root, x), ignore_errors=True)
     return out, th
 
